@@ -50,7 +50,9 @@ Cascaded(sheet, tok, p) ==
 Val(sheet, tok, p, inherited) == LET c == Cascaded(sheet, tok, p) IN IF c = <<>> THEN inherited ELSE c[1]
 
 \* PaintOf(parent context, token, ctm) = <<context for the children, paint of the element itself>>
-\* shape paint = <<fill, fill-opacity, stroke, stroke-opacity, stroke-width, |det ctm|>>
+\* shape paint = <<fill, fill-opacity, stroke, stroke-opacity, stroke-width, |det ctm|, vector-effect>>
+\* vector-effect is not inherited (SVG 2, 13.1): only the element's own declaration counts; with
+\* "non-scaling-stroke" the stroke is scaled by the enclosing viewport transforms alone (DocCore's vchain)
 Cascade(pc, tok, ctm) ==
   LET sheet == pc[7]
       color == Val(sheet, tok, "color", pc[4])
@@ -62,7 +64,8 @@ Cascade(pc, tok, ctm) ==
       fo == Val(sheet, tok, "fill-opacity", pc[5])
       so == Val(sheet, tok, "stroke-opacity", pc[6])
       det == RAbs(RSub(RMul(ctm[1], ctm[4]), RMul(ctm[3], ctm[2])))
-  IN << <<fill, strk, sw, color, fo, so, sheet>>, <<fill, fo, strk, so, sw, det>> >>
+      ve == Val(sheet, tok, "vector-effect", "none")
+  IN << <<fill, strk, sw, color, fo, so, sheet>>, <<fill, fo, strk, so, sw, det, ve>> >>
 
 \* defaults: fill black, stroke none, width 1, opacities 1; color = the caller's
 Paint0(callerColor, sheet) == <<"black", "none", R(1), callerColor, R(1), R(1), sheet>>
